@@ -130,8 +130,11 @@ def check_hamiltonian(ctx, seq, case=None) -> bool:
         ctx.count("hamiltonians_compared")
         scale = 1 + np.max(np.abs(Href))
         herm = np.max(np.abs(H - H.conj().T))
+        # couplings that are real up to ~1e-6 relative (phase within 1e-6 of 0 or pi): candidates for the known artefact
+        tiny_im = max([abs(c.imag) for (c, _) in drives.values() if abs(c) > 0 and 0 < abs(c.imag) < 1e-5 * abs(c)] + [0.0])
         if herm > 1e-10 * (1 + np.max(np.abs(H))):
-            ctx.violation("hermitian", f"H({t}) is not Hermitian: max|H-H^dag| = {herm:.3g}", "not-hermitian", case=case)
+            ctx.violation("hermitian", f"H({t}) is not Hermitian: max|H-H^dag| = {herm:.3g}",
+                          "nearly-real-coupling-merged-with-its-conjugate" if 0 < herm <= 2.5 * tiny_im else "not-hermitian", case=case)
         if multi:
             ctx.gray("several-drives-one-basis:off-diagonal")
             diff = np.max(np.abs(np.diag(H) - np.diag(Href)))
@@ -146,7 +149,8 @@ def check_hamiltonian(ctx, seq, case=None) -> bool:
             kind = "diagonal" if k[0] == k[1] else "off-diagonal"
             ctx.violation("hamiltonian", f"H({t} ns) differs from the documented formula in its {part}: entry {k} is "
                           f"{H[k]!r}, formula gives {Href[k]!r} (states {states}, atoms {qids})",
-                          f"hamiltonian:{kind}:{'xy' if in_xy else 'ising'}", case=case)
+                          "nearly-real-coupling-merged-with-its-conjugate" if (kind == "off-diagonal" and diff <= 2.5 * tiny_im)
+                          else f"hamiltonian:{kind}:{'xy' if in_xy else 'ising'}", case=case)
             return True
     ctx.count("sequences_compared")
     return True
